@@ -324,9 +324,21 @@ func Execute(sc Scenario) (log []gate.Event, key, detail string) {
 			}
 			time.Sleep(300 * time.Microsecond)
 		}
-		if !s.Settle() {
+		if !s.Settle() && !s.Settle() && !s.Settle() { // three watchdog periods before a goroutine on its way counts as stuck
 			key, detail = "hang", fmt.Sprintf("after step %d: a goroutine neither reached a hook, nor returned, nor blocked in a library primitive within %v:\n%s", step, s.Watchdog, s.Hang)
 			break
+		}
+	}
+	if key == "" && len(pending()) > 0 {
+		// confirm before alarm, in this very run (a second run may take another schedule): a call that is really stuck is still
+		// stuck after four more watchdog periods
+		deadline := time.Now().Add(4 * s.Watchdog)
+		for len(pending()) > 0 && len(s.ParkedIDs()) == 0 && time.Now().Before(deadline) {
+			time.Sleep(2 * time.Millisecond)
+			s.Settle()
+		}
+		if len(s.ParkedIDs()) > 0 {
+			key, detail = "infra", "a goroutine reached a hook long after the run had gone quiet (busy machine)"
 		}
 	}
 	if key == "" {
@@ -404,14 +416,6 @@ func Run(args []string) *rep.Report {
 	for i := si; i < *count; i += sn {
 		sc := Scenario{Config: *config, Seed: *seed*100019 + int64(i), Calls: 3 + i%6, Publishes: i % 4, Cancels: i%3 == 2}
 		log, key, detail := Execute(sc)
-		if key == "hang" || key == "watcher-leak" {
-			// confirm before alarm: a real deadlock shows again, with four times the patience
-			sc2 := sc
-			sc2.Patience = 4
-			if _, key2, _ := Execute(sc2); key2 != key {
-				key, detail = "infra", "a "+key+" did not reproduce with a longer watchdog (busy machine)"
-			}
-		}
 		r.Eval(true)
 		if i%29 == 0 {
 			r.Sample(map[string]interface{}{"scenario": sc, "first_events": log[:min(len(log), 40)]})
